@@ -153,6 +153,28 @@ def elementwise(st, f, *args, **kw):
 # indexing
 # ---------------------------------------------------------------------------
 
+def _known_nonneg(st, i):
+    """syntactic check: some conjunct of the path condition is `0 <= i` (or `lo <= i` with a literal lo >= 0)"""
+    t = i.t
+
+    def conj(f):
+        if z3.is_and(f):
+            for ch in f.children():
+                for x in conj(ch):
+                    yield x
+        else:
+            yield f
+    for c in st.pc:
+        if not isinstance(c, Sc):
+            continue
+        for f in conj(c.t):
+            if z3.is_le(f) and f.arg(1).eq(t) and z3.is_int_value(f.arg(0)) and f.arg(0).as_long() >= 0:
+                return True
+            if z3.is_ge(f) and f.arg(0).eq(t) and z3.is_int_value(f.arg(1)) and f.arg(1).as_long() >= 0:
+                return True
+    return False
+
+
 def norm_index(st, i, n, check=True):
     """Python index normalisation (negative wraps once) + bounds obligation."""
     if isinstance(i, int):
@@ -170,6 +192,11 @@ def norm_index(st, i, n, check=True):
     if isinstance(i, Sc):
         if not i.is_int:
             raise Unsupported("non-integer index")
+        if _known_nonneg(st, i):
+            # the path condition already says 0 <= i (a loop index): no wrap-around, keep the index term as it is
+            if check:
+                st.oblige('safe.index', compare('<', i, n), kind='safe')
+            return i
         i2 = ite(i < 0, i + n, i)
         if check:
             st.oblige('safe.index', band(compare('<=', 0, i2), compare('<', i2, n)), kind='safe')
@@ -193,6 +220,9 @@ def slice_params(s, n):
         if isinstance(v, int):
             return arith('+', n, v) if v < 0 else v
         return ite(v < 0, v + n, v)
+    if start is None and stop is None and step in (1, -1):
+        # the whole axis: its length is the dimension itself (a shape is never negative)
+        return (0, n, 1) if step == 1 else (arith('-', n, 1), n, -1)
     if step > 0:
         lo = 0 if start is None else _clamp(nrm(start), 0, n)
         hi = n if stop is None else _clamp(nrm(stop), 0, n)
